@@ -282,7 +282,7 @@ func (p *sparser) parseMul() (Expr, error) {
 }
 
 func (p *sparser) parseUnary() (Expr, error) {
-	if p.isOp("!") || p.isOp("-") {
+	if p.isOp("!") || p.isOp("-") || p.isOp("*") {
 		op := p.next().val
 		x, err := p.parseUnary()
 		if err != nil {
@@ -534,6 +534,15 @@ type SpecFile struct {
 	Pures     []*PureDef
 	Guarded   []GuardDecl
 	Measures  []MeasureDecl
+	Abstractions map[string]map[string]*AbsDef // type name -> field -> definition
+}
+
+// AbsDef: how an implementation type realises one abstract (ghost) field of the interface contracts.
+type AbsDef struct {
+	Field string
+	Param string // bound index variable for map-like fields ("" for scalars)
+	Body  Expr
+	Src   string
 }
 
 type GuardDecl struct {
@@ -634,8 +643,9 @@ func ParseSpecFile(path, pkg string) (*SpecFile, error) {
 	if err != nil {
 		return nil, err
 	}
-	sf := &SpecFile{Pkg: pkg}
+	sf := &SpecFile{Pkg: pkg, Abstractions: map[string]map[string]*AbsDef{}}
 	var cur *Contract
+	curAbs := ""
 	fail := func(ln string, err error) error {
 		return fmt.Errorf("%s: in %q: %v", path, ln, err)
 	}
@@ -650,6 +660,31 @@ func ParseSpecFile(path, pkg string) (*SpecFile, error) {
 			name, params, results := parseTargetSig(rest)
 			cur = &Contract{Kind: kw, Target: name, Pkg: pkg, File: path, Params: params, Results: results, LoopInv: map[int][]*Clause{}}
 			sf.Contracts = append(sf.Contracts, cur)
+		case "abstraction":
+			curAbs = strings.TrimPrefix(strings.TrimSpace(rest), "*")
+			if sf.Abstractions[curAbs] == nil {
+				sf.Abstractions[curAbs] = map[string]*AbsDef{}
+			}
+		case "absdef":
+			if curAbs == "" {
+				return nil, fail(ln, fmt.Errorf("absdef outside of an abstraction block"))
+			}
+			i := strings.Index(rest, " = ")
+			if i < 0 {
+				return nil, fail(ln, fmt.Errorf("expected: absdef name[k] = expr"))
+			}
+			head, body := strings.TrimSpace(rest[:i]), rest[i+3:]
+			ad := &AbsDef{Field: head, Src: body}
+			if j := strings.Index(head, "["); j > 0 && strings.HasSuffix(head, "]") {
+				ad.Field = head[:j]
+				ad.Param = head[j+1 : len(head)-1]
+			}
+			e, err := ParseExpr(body)
+			if err != nil {
+				return nil, fail(ln, err)
+			}
+			ad.Body = e
+			sf.Abstractions[curAbs][ad.Field] = ad
 		case "ghost":
 			// ghost var name type | ghost field name type
 			parts := strings.Fields(rest)
@@ -880,6 +915,7 @@ type SpecDB struct {
 	Pures     map[string]*PureDef
 	Guarded   []GuardDeclQ
 	Measures  []MeasureDecl
+	Abstractions map[string]map[string]*AbsDef // "<pkgpath>.<Type>" -> field -> def
 }
 
 type GuardDeclQ struct {
@@ -888,7 +924,7 @@ type GuardDeclQ struct {
 }
 
 func NewSpecDB() *SpecDB {
-	return &SpecDB{ByFunc: map[string]*Contract{}, ByIface: map[string]*Contract{}, ByExtern: map[string]*Contract{}, ByField: map[string]*Contract{}, Ghosts: map[string]*GhostDecl{}, Pures: map[string]*PureDef{}}
+	return &SpecDB{ByFunc: map[string]*Contract{}, ByIface: map[string]*Contract{}, ByExtern: map[string]*Contract{}, ByField: map[string]*Contract{}, Abstractions: map[string]map[string]*AbsDef{}, Ghosts: map[string]*GhostDecl{}, Pures: map[string]*PureDef{}}
 }
 
 func (db *SpecDB) Add(sf *SpecFile) error {
@@ -932,6 +968,9 @@ func (db *SpecDB) Add(sf *SpecFile) error {
 		db.Guarded = append(db.Guarded, GuardDeclQ{sf.Pkg, g})
 	}
 	db.Measures = append(db.Measures, sf.Measures...)
+	for tn, defs := range sf.Abstractions {
+		db.Abstractions[sf.Pkg+"."+tn] = defs
+	}
 	return nil
 }
 
